@@ -261,12 +261,51 @@ def r4_pdu_extent(ck, cx, rule='R4'):
                       'field exceeds the PDU (damaged length field, or bytes of the next frame swallowed) is delivered as this message' % fn.qn)
     ck.floor(rule, n, 40, 'decode() methods of registered messages')
 
+
+def r7_decode_failure_is_not_a_message(ck, cx, rule='R7'):
+    """R4 rests on this: when a codec rejects the buffer it was given (struct.error / IndexError from an exact-size unpack), nothing is
+    delivered.  The decoders call X.decode(data[1:]) on the freshly looked-up message; on every path where that call raises, the
+    decoder either lets the exception go (the framer then delivers nothing) or returns None -- it never returns a message object
+    built in a handler, which the framer would deliver for a frame whose length field and PDU disagree."""
+    ck.rule(rule, 'a codec that rejects its buffer never yields a delivered message: on the raising paths of the decoders\' decode()/_helper() the result is an exception or None')
+    n = 0
+    for dn in ('ServerDecoder', 'ClientDecoder'):
+        d = cx.idx.cls('pymodbus.factory.' + dn)
+        for mname in ('_helper', 'decode'):
+            f = cx.method(d, mname)
+            ck.saw('functions', f.qn)
+
+            def mr(node, frame, path, _m=mname):
+                if isinstance(node, ast.Call) and isinstance(node.func, ast.Attribute):
+                    if node.func.attr == 'decode' and not (isinstance(node.func.value, ast.Name) and node.func.value.id == 'self'):
+                        return ['struct.error', 'IndexError']
+                    if _m == 'decode' and node.func.attr == '_helper':
+                        return ['struct.error', 'IndexError']
+                return []
+            for p in cx.enum(f, d, resolver=lambda c, fr, pa: None, may_raise=mr, max_depth=0):
+                raised = [e for e in p.ev if e.kind == 'raise']
+                if not raised:
+                    continue
+                n += 1
+                if p.exit and p.exit[0] == 'exc':
+                    ck.ob(rule, f.qn, 'a codec failure leaves %s as an exception' % mname, True)
+                    continue
+                annotate(p, heap=False)
+                r = ret_expr(p)
+                none = r is None or (isinstance(r, ast.Constant) and r.value is None)
+                ck.ob(rule, f.qn, 'a caught codec failure yields None, not a message', none, detail='decode-failure-becomes-message %s' % mname, loc=cx.floc(f),
+                      message='%s.%s catches the %s its codec raised for the buffer and returns `%s`: the framer delivers that object, so a TCP frame whose '
+                              'MBAP length disagrees with its PDU (the only reason a fixed-layout codec rejects a buffer) reaches the application / is answered'
+                              % (dn, mname, raised[0].a if isinstance(raised[0].a, str) else 'exception', U(r)[:60] if r is not None else None))
+    ck.floor(rule, n, 3, 'raising paths of the decoders')
+
 def run(ck, tier):
     cx = Ctx()
     ck.guard(r1_r2, ck, cx)
     ck.guard(r3_shape, ck, cx)
     ck.guard(r2_delivered_range_is_declared_range, ck, cx)
     ck.guard(r4_pdu_extent, ck, cx)
+    ck.guard(r7_decode_failure_is_not_a_message, ck, cx)
     ck.assume('which corruptions CRC-16 / LRC detect is the mathematics of the codes and is not decided; nor is the arithmetic inside computeCRC/computeLRC beyond the constants')
     from .. import ownership as _own2
     ck.rule('R5', 'no unsound memoisation (a caching decorator on a method, or on a function that returns a mutable container) in the modules this property rests on')
